@@ -119,7 +119,9 @@ def one_run(ctx, ddf, cfg, cname, golden, faults, label, case):
     shutil.rmtree(root, ignore_errors=True)
     os.makedirs(os.path.join(root, "tmp"))
     gsnap, gtree = golden[0], golden[1]
-    fs = fsmon.MonFS(faults={k: fault_obj(v) for k, v in faults.items()})
+    stale = sorted(k for k, v in faults.items() if v == "stale")
+    hard = {k: fault_obj(v) for k, v in faults.items() if v != "stale"}
+    fs = fsmon.MonFS(faults=hard, stale_from=stale[0] if stale else None, stale_count=len(stale))
     outcome = None
     try:
         with dask.config.set(scheduler="synchronous"):
@@ -232,9 +234,13 @@ def run(ctx, spec):
                       expected="dataset identical to the fault-free run, or an exception",
                       observed=outcome, case={"config": cname, "positions": ks, "kind": kind})
 
+    listing_pos = [i + 1 for i, op in enumerate(golden[3]) if op in ("ls", "find")]
     for kind in p["kinds"]:
         for reps in p["reps"]:
-            for k in positions:
+            # a stale listing only makes sense where something is listed: every listing-type
+            # position is enumerated (not a stride sample), as the start of a window of `reps`
+            # stale listings
+            for k in (listing_pos if kind == "stale" else positions):
                 ks = list(range(k, k + reps))
                 faults = {kk: kind for kk in ks}
                 o, fired, detail = one_run(ctx, ddf, cfg, cname, golden, faults, f"{kind}-{reps}-{k}", None)
